@@ -108,6 +108,22 @@ func (c *segDataBuffer) dropSeqNr(seqNr uint32) {
 	}
 }
 
+// dropBefore drops all items with sequence number lower than seqNr.
+func (c *segDataBuffer) dropBefore(seqNr uint32) {
+	nrToDrop := uint32(0)
+	for i := uint32(0); i < c._nrItems; i++ {
+		if c.items[i].seqNr >= seqNr {
+			break
+		}
+		nrToDrop++
+	}
+	if nrToDrop == 0 {
+		return
+	}
+	copy(c.items, c.items[nrToDrop:c._nrItems])
+	c._nrItems -= nrToDrop
+}
+
 // Remove unshifted at start of interval and return their sequence numbers.
 func (c *segDataBuffer) removeUnshifted() []uint32 {
 	if c._nrItems == 0 {
